@@ -42,7 +42,7 @@ impl Family for C17 {
     if with_threads {
       unary.extend_from_slice(&["observe_on", "observe_on", "subscribe_on", "observe_on"]);
     }
-    let g = pipe::GenCfg { nsrc, unary: &unary, multi: pipe::MULTI, trig: &["take_until", "skip_until", "sample"], news: &["just", "from_iter", "empty", "error", "start"], max_depth: depth };
+    let g = pipe::GenCfg { nsrc, unary: &unary, multi: pipe::MULTI, trig: &["take_until", "skip_until", "sample", "switch_on_next"], news: &["just", "from_iter", "empty", "error", "start"], max_depth: depth };
     let mut next_src = 0;
     let mut pipeline = if rng.below(10) == 0 { Json::obj(vec![("src", Json::Int(0))]) } else { pipe::gen_node(rng, &g, depth, &mut next_src) };
     if rng.below(25) == 0 {
@@ -67,12 +67,14 @@ impl Family for C17 {
     }
     let mut order = gen_order(rng, &sources, 0);
     // cancel@k: an unsubscribe at every kind of position; otherwise always a final unsubscribe-free end
-    let cancel = rng.below(3) == 0;
+    // the callbacks keep a clone of their own Subscription: judged once the caller has unsubscribed
+    let keep_sub = rng.below(4) == 0;
+    let cancel = keep_sub || rng.below(3) == 0;
     if cancel {
       let pz = rng.below(order.len() as u64 + 1) as usize;
       order.insert(pz, ACT_UNSUB);
     }
-    spec_to_json(pipeline, &sources, &order, vec![("tokens", Json::Bool(true)), ("drop_all", Json::Bool(true)), ("allow_threads", Json::Bool(with_threads))])
+    spec_to_json(pipeline, &sources, &order, vec![("tokens", Json::Bool(true)), ("drop_all", Json::Bool(true)), ("allow_threads", Json::Bool(with_threads)), ("keep_sub", Json::Bool(keep_sub))])
   }
   fn exec(&self, w: &Json, cfg: RunCfg) -> RunOut {
     let mut spec = match spec_from_json(w) {
@@ -102,7 +104,9 @@ impl Family for C17 {
       "none"
     };
     // the property speaks about subscriptions that have ended
-    if r.res.outcome.is_ok() && ended_by != "none" {
+    // (callbacks that hold their own Subscription: the caller has "dropped its handles" only once the
+    // library has been told to let go of the callbacks, i.e. after an unsubscribe)
+    if r.res.outcome.is_ok() && ended_by != "none" && !(spec.keep_sub && r.unsubs.is_empty()) {
       // (r.live_tokens_sources_alive - the count while the caller's sources are still alive - is
       // recorded but not judged: what a source that outlives the subscription may legitimately keep
       // differs per source kind; the sources' side is C06's and C10's business)
